@@ -52,6 +52,8 @@ def scalar_in(m, t, v):
             return v
         if _is_int(v):
             return str(v)
+        if isinstance(v, float) and math.isfinite(v) and v == math.floor(v):
+            return str(int(v))      # same latitude as Int: JSON does not tell 3.0 from 3
         raise Bad("ID")
     c = m.get("custom", {}).get(t)
     if c is None:
